@@ -167,7 +167,21 @@ func eventSummary(evs []simfs.Event, max int) []string {
 
 // failedOracle evaluates C01's clauses on a run that returned an error or panicked.
 // rec is the fault-free recording of the same config (nil if none).
-func failedOracle(r, rec *engine.Result, faults []simfs.Fault) []core.Violation {
+func failedOracle(r, rec *engine.Result, faults []simfs.Fault, alts ...*engine.Result) []core.Violation {
+	// alts: further reference runs whose outputs count as "what the operation publishes" - for a run with
+	// two faults the run with the first fault alone (a read error that the operation absorbs can change
+	// what an earlier part holds; whether it may is not C01's subject)
+	sameAsRef := func(k string, e1 simfs.Entry) bool {
+		for _, a := range alts {
+			if a == nil {
+				continue
+			}
+			if ea, ok := a.S1[k]; ok && ea.Type == e1.Type && ea.Sum == e1.Sum {
+				return true
+			}
+		}
+		return false
+	}
 	var vs []core.Violation
 	o := ops.Get(r.Cfg.Op)
 	mk := func(class, sigTail, detail string) {
@@ -224,7 +238,7 @@ func failedOracle(r, rec *engine.Result, faults []simfs.Fault) []core.Violation 
 			how := "changed"
 			if rec != nil && kind == "preexisting-output" && e1.Type == "file" {
 				// an earlier part of a multi-output operation was published over it, completely
-				if er, ok := rec.S1[k]; ok && er.Type == e1.Type && (er.Sum == e1.Sum || r.ValidPDF[k]) {
+				if er, ok := rec.S1[k]; ok && er.Type == e1.Type && (er.Sum == e1.Sum || r.ValidPDF[k] || sameAsRef(k, e1)) {
 					how = "replaced-by-complete-earlier-output"
 				} else if !ok && expectedName(rec, k) && r.ValidPDF[k] {
 					how = "replaced-by-complete-earlier-output" // a complete intermediate output (merge mode)
@@ -260,7 +274,7 @@ func failedOracle(r, rec *engine.Result, faults []simfs.Fault) []core.Violation 
 				// "complete earlier output": a path the fault-free run also produces, holding a complete
 				// result (byte-equal for deterministic outputs, a validating PDF otherwise)
 				if er, ok := rec.S1[k]; ok && er.Type == e1.Type {
-					if e1.Type == "dir" || er.Sum == e1.Sum || r.ValidPDF[k] {
+					if e1.Type == "dir" || er.Sum == e1.Sum || r.ValidPDF[k] || sameAsRef(k, e1) {
 						sub = "complete-earlier-output"
 					}
 				}
@@ -570,7 +584,7 @@ func (c01) RunUnit(raw core.Unit, tier string, seed int64) core.UnitResult {
 			continue
 		}
 		res.Nontrivial = append(res.Nontrivial, cfg.String()+"|"+f1.String()+"+"+f2.String())
-		for _, v := range failedOracle(r2, rec, []simfs.Fault{f1, f2}) {
+		for _, v := range failedOracle(r2, rec, []simfs.Fault{f1, f2}, r1) {
 			// relaxation (b): with a fault inside cleanup, staging leftovers are unavoidable
 			if v.Class == "leftover-staging" || v.Class == "leftover-output" {
 				res.Probes["double_fault_leftover_waived"]++
@@ -617,7 +631,14 @@ func (c01) Replay(payload json.RawMessage) ([]core.Violation, error) {
 	if r.Err == nil && !r.Panicked {
 		return nil, nil
 	}
-	return failedOracle(r, rec, rp.Faults), nil
+	var alt *engine.Result
+	if len(rp.Faults) > 1 {
+		// the run with the first fault alone (see failedOracle)
+		if a, err := engine.Run(cfg, engine.Options{Faults: rp.Faults[:1]}); err == nil {
+			alt = a
+		}
+	}
+	return failedOracle(r, rec, rp.Faults, alt), nil
 }
 
 func (c01) Minimise(v core.Violation, budget int) json.RawMessage {
